@@ -49,7 +49,7 @@ ASSUMPTIONS = [
     "ln / exp are oracles (libm on the nearest double) in the model; log1p(s) is rendered ln(1+s); + - * / are exact in the model, float64 in the code (tolerance 1e-9 * max(1,|score|))",
     "scipy.special.logsumexp is modelled after the installed 1.17.1 algorithm (max elements separated, log1p(s/m)+log(m)+max); equal in real arithmetic to log(sum(exp(a-max)))+max",
     "rng.choice is recorded and replayed; its contract (distinct ranks in range(C(n,3)), size min(C(n,3), max_combos)) is checked on every call; the unranking is Model/Unrank.v (property C15)",
-    "distance_factor > 0, variances > 0 (alpha > 0), distances >= 0 in generated cases (the theorems need none of these except where stated)",
+    "DOMAIN of the model's agreement with numpy: distance_factor > 0, variances > 0 (hence alpha > 0: C05_domain_alpha_positive), distances >= 0 (C05_domain_distance_term), no NaN / inf inputs - the property's own quantifier, and all the generator produces.  The theorems hold of the MODEL without these hypotheses, but outside them the model is a totalisation (1/0 = 0, ln of a non-positive number = the oracle's value, df * -inf = -inf for every df) that numpy does not share (inf / NaN): there they are not claims about the code",
     "predict_mean_all / predict_variance_all are the identity on the rows returned by the thetas (exercised, not modelled); dict order = insertion order",
 ]
 EXPLANATION = ("Model: Model/Dbal.v (+ Model/Unrank.v for the ranks -> triples step).  Modelled, not verified: numpy broadcasting/"
@@ -106,6 +106,18 @@ THEOREMS.update({
 EXPLANATION += ("  CONSTRUCTOR: GaussianDBALScorer.__init__ is re-translated on every run (LS_INIT_DBAL -> Generated/SrcInits.v) and proved to store its two "
                 "arguments; trusted: the translator only (no primitive): `self.<attr>` is a variable of the translation (attr_vars), the value of the translated __init__ is the tuple of the attributes when it ends; an attribute that is not declared is refused; the statement `super().__init__(**kwargs)` is IGNORED - trusted: the base class Scorer "
                 "defines no __init__ (object.__init__ stores nothing; its TypeError for unexpected keyword arguments is not modelled).")
+
+# ---- composition and domain theorems (gap review g2: G5.3 / G15.1, G5.6) ----
+THEOREMS.update({
+    "C05_full_draw_complete": "for T >= 3 every rng.choice answer obeying numpy's contract for rng.choice(C(T,3), size=C(T,3), replace=False) unranks WITHOUT ERROR to a complete enumeration (every triple a > b > c below T exactly once) of valid triples: the property's premise 'all triples are enumerated' follows from 'the budget covers C(T,3)' through C15's bijection",
+    "C05_draw_valid": "every contract-obeying answer (sub-sampled budgets included) unranks without error to k distinct valid triples: the hypothesis `triples_of_draw T idxs = Ok ts` of C05_checked_ok / C05_scorer_checked_ok always holds",
+    "C05_source_score_full_enumeration": "END TO END on the TRANSLATED GaussianDBALScorer.score: T >= 3, square T x T matrix, any max_chunk >= 1, any dict (distinct keys, selection vectors of one length) of well-formed plates, at least ceil(n/max_chunk) recorded answers each a full draw: the translation returns, no error, each key with the direct estimator of ITS OWN plate on any one complete enumeration - the right-hand side mentions neither max_chunk nor the other plates nor the draws",
+    "C05_source_hetero_full_enumeration": "the same for the translated dbal_fast_gaussian_scoring_heteroscedastic on a full draw, any distance_factor",
+    "C05_source_kernel_full_enumeration": "the vectorised kernel as: translated shape checks, translated index-to-triple run with budget max_combos >= C(T,3) on a contract-obeying answer, then the tensor expressions, on the padded arrays of any non-empty well-formed plate list = the direct estimator per plate",
+    "C05_domain_alpha_positive": "positive variances => alpha > 0 on every cell the kernel computes with (NaN-padded cells carry variance 1): the model's totalisation 1/0 = 0 is never reached on the property's domain",
+    "C05_domain_alpha_positive_direct": "the same for the direct estimator's alpha",
+    "C05_domain_distance_term": "non-negative matrix => the log-distance term is -inf exactly at summed distance 0, else distance_factor * ln of a POSITIVE number (np.log never sees a negative argument on the property's domain)",
+})
 
 TRUSTED = [
     "source-translation links C05_model_is_source_*: the translator harness/py2gal.py (rendering into Lib/PyRt.v) and the primitives of the "
